@@ -24,8 +24,16 @@ tdir = os.path.join(wt, target)
 created = not os.path.exists(tdir)
 os.makedirs(tdir, exist_ok=True)
 copied = []
-for f in os.listdir(os.path.join(src, "demo")):
-    shutil.copy(os.path.join(src, "demo", f), os.path.join(tdir, f)); copied.append(os.path.join(tdir, f))
+for root, _, files in os.walk(os.path.join(src, "demo")):
+    for f in files:
+        p = os.path.join(root, f)
+        rel = os.path.relpath(p, os.path.join(src, "demo"))
+        if rel.startswith("seeddemo" + os.sep):
+            dstp = os.path.join(wt, rel)
+        else:
+            dstp = os.path.join(tdir, os.path.basename(rel))
+        os.makedirs(os.path.dirname(dstp), exist_ok=True)
+        shutil.copy(p, dstp); copied.append(dstp)
 log = {}
 ok = True
 try:
